@@ -219,7 +219,16 @@ def boom(flag: object) -> int:
         raise ValueError("boom")
     return 0
 '''
-PRELUDE_LINES = PRELUDE.count("\n")
+_parts = PRELUDE.split("\ndef ")
+PRELUDE_HEAD = _parts[0] + "\n"
+HELPER_SRC = {}
+for _p in _parts[1:]:
+    HELPER_SRC[_p.split("(")[0]] = "def " + _p.rstrip("\n") + "\n"
+
+
+def prelude_for(text):
+    """The imports plus the helper functions the text refers to."""
+    return PRELUDE_HEAD + "".join(src for name, src in HELPER_SRC.items() if (name + "(") in text)
 
 # helper signatures for the generator: name -> (param types, return type); ("tvar", i) marks type variables
 TV0, TV1 = ("tvar", 0), ("tvar", 1)
@@ -1501,12 +1510,16 @@ class RecVisitor(NameCheckVisitor):
         return comp
 
 
+# redundancy lints say nothing about the values: a function carrying only these is still judged
+SETTINGS = pya.default_settings(extra_off=("impossible_pattern", "type_always_true", "value_always_true", "unsafe_comparison"))
+
+
 def analyse(src):
     """pyanalyze on the module text: (failures, tree, {id(node): [Value, ...]})."""
     import contextlib, io
     tree = ast.parse(src)
     mod = make_module(src)
-    kwargs = NameCheckVisitor.prepare_constructor_kwargs({"settings": pya.default_settings()})
+    kwargs = NameCheckVisitor.prepare_constructor_kwargs({"settings": SETTINGS})
     with contextlib.redirect_stderr(io.StringIO()), contextlib.redirect_stdout(io.StringIO()):
         v = RecVisitor(mod.__name__, src, tree, module=mod, annotate=True, **kwargs)
         v._c01_vals = {}
@@ -1590,10 +1603,14 @@ class Runner:
                 call = ast.Expr(ast.Call(func=ast.Name(id="__enter", ctx=ast.Load()),
                                          args=[ast.Constant(st.name)] + [ast.Name(id=a.arg, ctx=ast.Load()) for a in st.args.args], keywords=[]))
                 st.body.insert(0, call)
+        for n in ast.walk(tree2):
+            if isinstance(n, (ast.While, ast.For)):
+                n.body.insert(0, ast.Expr(ast.Call(func=ast.Name(id="__tick", ctx=ast.Load()), args=[], keywords=[])))
         ast.fix_missing_locations(tree2)
         self.sig = sig
         self.depth = 0
-        self.ns = {"__rec": self.rec, "__enter": self.enter, "__name__": "c01_exec"}
+        self.ticks = 0
+        self.ns = {"__rec": self.rec, "__enter": self.enter, "__tick": self.tick, "__name__": "c01_exec"}
         exec(compile(tree2, "<c01>", "exec"), self.ns)
 
     def rec(self, k, v):
@@ -1602,8 +1619,14 @@ class Runner:
         self.log.append((k, snapshot(v)))
         return v
 
+    def tick(self):
+        self.ticks += 1
+        if self.ticks > 3000:
+            raise Abort("too many loop iterations")
+
     def enter(self, name, *args):
         self.calls += 1
+        self.log.append(("enter", name, snapshot(args)))
         if self.calls == 1:
             return
         for i, (a, t) in enumerate(zip(args, self.sig[name])):
@@ -1614,6 +1637,7 @@ class Runner:
     def run(self, name, args):
         self.log = []
         self.calls = 0
+        self.ticks = 0
         exc = None
         try:
             self.ns[name](*args)
@@ -1682,7 +1706,8 @@ def fn_ranges(tree):
 def judge_module(fns, arg_sets, stats, want=None):
     """Check + execute one module. fns: generated functions (dicts), arg_sets: {name: [argument object tuples]}.
     Returns the list of failures: dicts {fn, args, node, value, inferred, what, kind}."""
-    src = PRELUDE + "\n".join(f["src"] for f in fns) + "\n"
+    body = "\n".join(f["src"] for f in fns) + "\n"
+    src = prelude_for(body) + body
     try:
         fails, tree, vals = analyse(src)
     except SyntaxError as e:
@@ -1735,16 +1760,20 @@ def judge_module(fns, arg_sets, stats, want=None):
             if exc:
                 stats["exec_exc_" + exc.split(":")[0]] = stats.get("exec_exc_" + exc.split(":")[0], 0) + 1
             nontriv = False
-            seen_fail = set()
+            first = None
+            cur_args = {}
             for ent in log:
+                if ent[0] == "enter":
+                    cur_args[ent[1]] = ent[2]
+                    continue
                 if ent[0] == "arg":
                     _, callee, i, val = ent
-                    if callee in bad_fns:
+                    if callee in bad_fns or first is not None:
                         continue
-                    failures.append({"fn": name, "args": objs, "node": "argument %d of the call to %s" % (i, callee), "nid": -1,
-                                     "value": repr(val), "inferred": ty_src(next(g for g in fns if g["name"] == callee)["ptypes"][i]),
-                                     "kind": "arg", "lineno": 0,
-                                     "what": "callee %s received %r for parameter %d although no diagnostic was reported" % (callee, val, i)})
+                    first = {"fn": name, "owner": name, "args": objs, "node": "argument %d of the call to %s" % (i, callee), "nid": -1,
+                             "value": repr(val), "inferred": ty_src(next(g for g in fns if g["name"] == callee)["ptypes"][i]),
+                             "kind": "arg", "lineno": 0, "never": False,
+                             "what": "callee %s received %r for parameter %d although no diagnostic was reported" % (callee, val, i)}
                     continue
                 k, val = ent
                 node, owner = nodes[k]
@@ -1767,13 +1796,22 @@ def judge_module(fns, arg_sets, stats, want=None):
                     nontriv = True
                 if r is None:
                     stats["not_judged_typevar"] = stats.get("not_judged_typevar", 0) + 1
-                elif r is False and k not in seen_fail:
-                    seen_fail.add(k)
+                elif r is False and first is None:
+                    # only the FIRST failing evaluation of an execution is a root cause; later ones may be consequences
                     inferred = " / ".join(dict.fromkeys(xshow(t) for t in ts))
-                    failures.append({"fn": name, "owner": owner, "args": objs, "node": ast.unparse(node), "nid": k,
-                                     "kind": type(node).__name__, "lineno": node.lineno - ranges[owner][0],
-                                     "value": repr(val), "inferred": inferred, "never": all(t == ("union", []) for t in ts),
-                                     "what": "%s evaluated to %r, which is not in the inferred %s" % (ast.unparse(node), val, inferred)})
+                    fargs, fowner = objs, name
+                    if owner != name:
+                        try:
+                            fargs, fowner = [V.py_to_obj(a) for a in cur_args[owner]], owner
+                        except (V.Unencodable, KeyError):
+                            pass
+                    first = {"fn": fowner, "owner": owner, "args": fargs, "node": ast.unparse(node), "nid": k,
+                             "kind": type(node).__name__, "lineno": node.lineno - ranges[owner][0], "col": node.col_offset,
+                             "value": repr(val), "inferred": inferred, "never": all(t == ("union", []) for t in ts),
+                             "xterms": ts, "pyvalue": val, "top": name,
+                             "what": "%s evaluated to %r, which is not in the inferred %s" % (ast.unparse(node), val, inferred)}
+            if first is not None:
+                failures.append(first)
             stats["nontrivial_exec"] = stats.get("nontrivial_exec", 0) + (1 if nontriv else 0)
     return failures, src
 
@@ -1811,7 +1849,13 @@ def _variants(fn_src):
                     spots.append(("liftcase", id(owner), field, i, ci))
                     if len(st.cases) > 1:
                         spots.append(("dropcase", id(owner), field, i, ci))
-    n_expr = sum(1 for n in ast.walk(tree) if isinstance(n, (ast.BoolOp, ast.IfExp, ast.BinOp, ast.UnaryOp, ast.Call, ast.Compare, ast.Tuple, ast.List)))
+    def body_exprs(t):
+        out = []
+        for st in t.body[0].body:
+            out += [n for n in ast.walk(st) if isinstance(n, (ast.BoolOp, ast.IfExp, ast.BinOp, ast.UnaryOp, ast.Call, ast.Compare, ast.Tuple, ast.List))
+                    and not isinstance(getattr(n, "ctx", None), ast.Store)]
+        return out
+    n_expr = len(body_exprs(tree))
     for sp in spots:
         t2 = ast.parse(fn_src)
         owners = {}
@@ -1852,12 +1896,10 @@ def _variants(fn_src):
     for idx in range(n_expr):
         for choice in range(3):
             t2 = ast.parse(fn_src)
-            targets = [n for n in ast.walk(t2) if isinstance(n, (ast.BoolOp, ast.IfExp, ast.BinOp, ast.UnaryOp, ast.Call, ast.Compare, ast.Tuple, ast.List))]
+            targets = body_exprs(t2)
             if idx >= len(targets):
                 break
             tg = targets[idx]
-            if isinstance(getattr(tg, "ctx", None), ast.Store):
-                break
             if isinstance(tg, ast.BoolOp):
                 subs = tg.values
             elif isinstance(tg, ast.IfExp):
@@ -1934,3 +1976,702 @@ def shrink(fn, fns, objs, keep, max_checks=250):
     # drop dependencies that are no longer used
     deps = deps_of(cur, fns)
     return cur, deps
+
+
+# ------------------------------------------------------------------ classification skeleton of a failing evaluation
+# Tokens (parsed by Driver/C01.lean, command `cls`; the predicates are Pya.C01.D01_* of Spec/D01.lean):
+#   a0 | a1        assignment to the failing variable v (a1: the new value depends on v's previous value)
+#   o              any other simple statement        u:<f>   the failing evaluation (f=1: an isinstance(v, float|complex) test
+#   br co ret rs                                              occurs in the same statement)
+#   if:<f> [ B ] [ B ]      wh:<true>:<f> [ B ] [ B ]      for [ B ] [ B ]
+#   try [ B ] { [ H ] ... } [ E ] [ F ]                     mt:<irrefutable last case> { [ C ] ... }
+def _reads(node):
+    return {n.id for n in ast.walk(node) if isinstance(n, ast.Name) and isinstance(n.ctx, ast.Load)}
+
+
+def _targets(st):
+    """Names bound by a simple statement / a loop header."""
+    out = set()
+    tg = []
+    if isinstance(st, ast.Assign):
+        tg = st.targets
+    elif isinstance(st, (ast.AugAssign, ast.AnnAssign, ast.For)):
+        tg = [st.target]
+    for t in tg:
+        out |= {n.id for n in ast.walk(t) if isinstance(n, ast.Name)}
+    return out
+
+
+def _isfloat_test(node, v):
+    for n in ast.walk(node):
+        if isinstance(n, ast.Call) and isinstance(n.func, ast.Name) and n.func.id == "isinstance" and len(n.args) == 2:
+            if isinstance(n.args[0], ast.Name) and n.args[0].id == v:
+                names = {x.id for x in ast.walk(n.args[1]) if isinstance(x, ast.Name)}
+                if names & {"float", "complex"}:
+                    return True
+        if isinstance(n, ast.MatchClass) and isinstance(n.cls, ast.Name) and n.cls.id in ("float", "complex"):
+            return True
+    return False
+
+
+def _irrefutable(pat):
+    if isinstance(pat, ast.MatchAs):
+        return pat.pattern is None or _irrefutable(pat.pattern)
+    if isinstance(pat, ast.MatchOr):
+        return any(_irrefutable(p) for p in pat.patterns)
+    return False
+
+
+def skeleton(fn_node, fail_node, v):
+    """The token line for the failing evaluation `fail_node` (an expression node of fn_node) about variable v."""
+    fail_ids = {id(n) for n in ast.walk(fail_node)}
+
+    def contains_fail(node):
+        return any(id(n) in fail_ids for n in ast.walk(node)) if node is not None else False
+
+    def self_dep(st, loop_assigns):
+        """Does the value assigned to v by st depend on v's previous value (directly or through names assigned in the
+        same loop)?"""
+        if isinstance(st, ast.AugAssign):
+            return True
+        src = st.iter if isinstance(st, ast.For) else getattr(st, "value", None)
+        if src is None:
+            return False
+        seen, todo = set(), list(_reads(src))
+        while todo:
+            x = todo.pop()
+            if x == v:
+                return True
+            if x in seen:
+                continue
+            seen.add(x)
+            for a in loop_assigns:
+                if x in _targets(a):
+                    if isinstance(a, ast.AugAssign):
+                        todo.append(x)
+                    s2 = a.iter if isinstance(a, ast.For) else getattr(a, "value", None)
+                    if s2 is not None:
+                        todo += list(_reads(s2))
+        return False
+
+    def block(stmts, loop_assigns):
+        out = []
+        for st in stmts:
+            out += stmt(st, loop_assigns)
+        return out
+
+    def br(stmts, loop_assigns):
+        return ["["] + block(stmts, loop_assigns) + ["]"]
+
+    def u_tok(st):
+        return "u:%d" % (1 if _isfloat_test(st, v) else 0)
+
+    def stmt(st, loop_assigns):
+        if isinstance(st, ast.If):
+            pre = [u_tok(st.test)] if contains_fail(st.test) else []
+            return pre + ["if:%d" % _isfloat_test(st.test, v)] + br(st.body, loop_assigns) + br(st.orelse, loop_assigns)
+        if isinstance(st, (ast.While, ast.For)):
+            inner = [a for a in ast.walk(st) if isinstance(a, (ast.Assign, ast.AugAssign, ast.AnnAssign, ast.For))]
+            la = loop_assigns + inner
+            if isinstance(st, ast.While):
+                always = isinstance(st.test, ast.Constant) and bool(st.test.value)
+                head = ["wh:%d:%d" % (always, _isfloat_test(st.test, v))]
+                first = [u_tok(st.test)] if contains_fail(st.test) else []
+                return head + ["["] + first + block(st.body, la) + ["]"] + br(st.orelse, la)
+            pre = [u_tok(st.iter)] if contains_fail(st.iter) else []
+            tgt = []
+            if v in _targets(st):
+                tgt = ["a1" if self_dep(st, la) else "a0"]
+            return pre + ["for", "["] + tgt + block(st.body, la) + ["]"] + br(st.orelse, la)
+        if isinstance(st, ast.Try):
+            hs = []
+            for h in st.handlers:
+                hs += br(h.body, loop_assigns)
+            return ["try"] + br(st.body, loop_assigns) + ["{"] + hs + ["}"] + br(st.orelse, loop_assigns) + br(st.finalbody, loop_assigns)
+        if isinstance(st, ast.Match):
+            pre = [u_tok(st.subject)] if contains_fail(st.subject) else []
+            cs = []
+            for c in st.cases:
+                binds = {n.name for n in ast.walk(c.pattern) if isinstance(n, (ast.MatchAs, ast.MatchStar)) and n.name}
+                cs += ["["] + (["a0"] if v in binds else []) + block(c.body, loop_assigns) + ["]"]
+            last = st.cases[-1]
+            return pre + ["mt:%d:%d" % (last.guard is None and _irrefutable(last.pattern), any(_isfloat_test(c.pattern, v) for c in st.cases)), "{"] + cs + ["}"]
+        pre = [u_tok(st)] if contains_fail(st) else []
+        if isinstance(st, ast.Break):
+            return ["br"]
+        if isinstance(st, ast.Continue):
+            return ["co"]
+        if isinstance(st, ast.Return):
+            return pre + ["ret"]
+        if isinstance(st, ast.Raise):
+            return pre + ["rs"]
+        if isinstance(st, ast.Assert):
+            return pre + ["if:%d" % _isfloat_test(st.test, v), "[", "]", "[", "rs", "]"]
+        if v in _targets(st):
+            return pre + ["a1" if self_dep(st, loop_assigns) else "a0"]
+        return pre + ["o"]
+
+    return " ".join(block(fn_node.body, []))
+
+
+# ---- Python mirror of Spec/D01.lean (used for the shrinking criterion and when the driver is unavailable; the verdict uses
+# the driver's answer and the two are compared on every classified failure, stream `cls`)
+def _parse_skel(tokens):
+    pos = 0
+
+    def blk():
+        nonlocal pos
+        assert tokens[pos] == "["
+        pos += 1
+        out = []
+        while tokens[pos] != "]":
+            out.append(st())
+        pos += 1
+        return out
+
+    def st():
+        nonlocal pos
+        t = tokens[pos]
+        pos += 1
+        p = t.split(":")
+        if p[0] == "if":
+            return ("if", p[1] == "1", blk(), blk())
+        if p[0] == "wh":
+            return ("loop", p[1] == "1", p[2] == "1", blk(), blk())
+        if p[0] == "for":
+            return ("loop", False, False, blk(), blk())
+        if p[0] == "try":
+            b = blk()
+            assert tokens[pos] == "{"
+            pos += 1
+            hs = []
+            while tokens[pos] != "}":
+                hs.append(blk())
+            pos += 1
+            return ("try", b, hs, blk(), blk())
+        if p[0] == "mt":
+            assert tokens[pos] == "{"
+            pos += 1
+            cs = []
+            while tokens[pos] != "}":
+                cs.append(blk())
+            pos += 1
+            return ("mt", p[1] == "1", p[2] == "1", cs)
+        if p[0] == "u":
+            return ("u", p[1] == "1")
+        return (p[0],)
+
+    out = []
+    while pos < len(tokens):
+        out.append(st())
+    return out
+
+
+def _subblocks(s):
+    k = s[0]
+    if k == "if":
+        return [s[2], s[3]]
+    if k == "loop":
+        return [s[3], s[4]]
+    if k == "try":
+        return [s[1]] + s[2] + [s[3], s[4]]
+    if k == "mt":
+        return s[3]
+    return []
+
+
+def _any(s, pred):
+    return pred(s) or any(_any(x, pred) for b in _subblocks(s) for x in b)
+
+
+def _u_in(s):
+    return _any(s, lambda x: x[0] == "u")
+
+
+def _scan(P, later, stmts):
+    for i, s in enumerate(stmts):
+        lat = later or any(_u_in(x) for x in stmts[i + 1:])
+        if P(s) and (_u_in(s) or lat):
+            return True
+        sub_later = lat or (s[0] == "loop" and _u_in(s))
+        if any(_scan(P, sub_later, b) for b in _subblocks(s)):
+            return True
+    return False
+
+
+def _has_a(s):
+    return _any(s, lambda x: x[0] in ("a0", "a1"))
+
+
+def _jump_not_nested(block, kinds):
+    """a break/continue of THIS loop (not of a nested loop) in the block"""
+    for s in block:
+        if s[0] in kinds:
+            return True
+        if s[0] != "loop" and any(_jump_not_nested(b, kinds) for b in _subblocks(s)):
+            return True
+    return False
+
+
+D_PREDICATES = {
+    "loopCarriedLiteral": lambda s: s[0] == "loop" and _any(s, lambda x: x[0] == "a1"),
+    "C09:loopElse": lambda s: s[0] == "loop" and bool(s[4]) and _has_a(s),
+    "C09:secondVisitSeed": lambda s: s[0] == "loop" and s[1] and _has_a(s),
+    "C09:loopBreak": lambda s: s[0] == "loop" and _jump_not_nested(s[3], ("br",)) and _has_a(s),
+    "C09:jumpThroughFinally": lambda s: s[0] == "try" and bool(s[4]) and _any(s, lambda x: x[0] in ("br", "co", "ret")) and _has_a(s),
+    "C09:loopJumpInSuppressing": lambda s: s[0] == "try" and any(_any(x, lambda y: y[0] in ("br", "co")) for x in s[1]) and _has_a(s),
+    "C09:nestedLoopJump": lambda s: s[0] == "loop" and any(_any(x, lambda y: y[0] == "loop" and _any(y, lambda z: z[0] in ("br", "co")))
+                                                            for b in _subblocks(s) for x in b) and _has_a(s),
+    "C02:promote": lambda s: (s[0] == "if" and s[1]) or (s[0] == "loop" and s[2]) or (s[0] == "u" and s[1]) or (s[0] == "mt" and s[2]),
+    "matchExhaustiveLeavesScope": lambda s: s[0] in ("if", "loop", "try", "mt") and any(_any(x, lambda y: y[0] == "mt" and y[1])
+                                                                                            for b in _subblocks(s) for x in b),
+}
+CLASS_ORDER = ["C02:promote", "loopCarriedLiteral", "matchExhaustiveLeavesScope", "C09:loopElse", "C09:secondVisitSeed", "C09:loopBreak",
+               "C09:jumpThroughFinally", "C09:loopJumpInSuppressing", "C09:nestedLoopJump"]
+
+
+def py_classes(line):
+    try:
+        prog = _parse_skel(line.split())
+    except (AssertionError, IndexError):
+        return None
+    return [c for c in CLASS_ORDER if _scan(D_PREDICATES[c], False, prog)]
+
+
+def find_fail_node(fn_src, f):
+    tree = ast.parse(fn_src)
+    fn = tree.body[0]
+    for n in ast.walk(fn):
+        if isinstance(n, REC_TYPES) and getattr(n, "lineno", None) == f["lineno"] + 1 and n.col_offset == f["col"] and \
+                type(n).__name__ == f["kind"]:
+            return fn, n
+    return fn, None
+
+
+def fail_var(node):
+    """The variable a failing evaluation is about: the name itself, or the base name of a subscript."""
+    if isinstance(node, ast.Name):
+        return node.id
+    if isinstance(node, ast.Subscript) and isinstance(node.value, ast.Name):
+        return node.value.id
+    return None
+
+
+# ------------------------------------------------------------------ MiniPy: the Lean mini-language (correspondence streams)
+MINI_TYPES = [
+    T(INT), T(STR), T(BOOL), OBJECT_T, NONE_T, Un(T(INT), NONE_T), Un(T(STR), NONE_T), Un(T(INT), T(STR), NONE_T),
+    Un(K(1), K("a"), NONE_T), ("seq", TUPLE, [T(INT), T(STR)]), ("seq", TUPLE, [T(INT), Un(T(STR), NONE_T)]),
+    Un(("seq", TUPLE, [T(INT), T(STR)]), NONE_T), ("generic", LIST, [T(INT)]), ("generic", TUPLE, [T(INT)]),
+    ("generic", LIST, [Un(T(INT), NONE_T)]), Un(("generic", LIST, [T(INT)]), ("seq", TUPLE, [T(STR), T(INT)])),
+    ("seq", TUPLE, [T(INT), ("many", T(STR))]), ("generic", SEQUENCE, [T(STR)]), Un(T(FLOAT), NONE_T), T(CA),
+]
+MINI_LITS = [("int", 0), ("int", 1), ("int", 5), ("str", "a"), ("str", ""), ("none",), ("bool", 1), ("bool", 0), ("int", -1)]
+
+
+class MiniGen:
+    def __init__(self, rng):
+        self.rng = rng
+
+    def test(self, defined):
+        rng = self.rng
+        x = rng.choice(defined)
+        t = (rng.choice(["isnone", "notnone"]), x)
+        while rng.random() < 0.2:
+            t = ("not", t)
+        return t
+
+    def expr(self, defined, depth):
+        rng = self.rng
+        r = rng.random()
+        if depth <= 0 or r < 0.3:
+            if rng.random() < 0.6:
+                return ("var", rng.choice(defined))
+            return ("lit", rng.choice(MINI_LITS))
+        if r < 0.5:
+            return (rng.choice(["tup", "lst"]), [self.expr(defined, depth - 1) for _ in range(rng.choice([0, 1, 2, 2, 3]))])
+        if r < 0.75:
+            seqs = [x for x in defined if self.seqish.get(x)]
+            if seqs and rng.random() < 0.7:
+                base = ("var", rng.choice(seqs))
+            elif rng.random() < 0.6:
+                base = (rng.choice(["tup", "lst"]), [self.expr(defined, depth - 1) for _ in range(rng.choice([1, 2, 3]))])
+            else:
+                base = self.expr(defined, depth - 1)
+            return ("sub", base, rng.choice([0, 1, -1, 0, 1, 2, -2, 5]))
+        return ("ite", self.test(defined), self.expr(defined, depth - 1), self.expr(defined, depth - 1))
+
+    def block(self, defined, nvars, budget, depth):
+        """returns (stmts, defined_after or None if the block always returns)"""
+        rng = self.rng
+        out = []
+        defined = list(defined)
+        for _ in range(rng.choice([1, 2, 2, 3])):
+            if budget[0] <= 0:
+                break
+            budget[0] -= 1
+            r = rng.random()
+            if depth > 0 and r < 0.3:
+                t = self.test(defined)
+                b, db = self.block(defined, nvars, budget, depth - 1)
+                e, de = self.block(defined, nvars, budget, depth - 1) if rng.random() < 0.7 else ([], defined)
+                out.append(("if", t, b, e))
+                outs = [d for d in (db, de) if d is not None]
+                if not outs:
+                    return out, None
+                defined = [x for x in outs[0] if all(x in d for d in outs)]
+            elif r < 0.36 and depth < 2:
+                out.append(("ret", self.expr(defined, 2)))
+                return out, None
+            else:
+                x = rng.choice(defined) if rng.random() < 0.4 else nvars[0]
+                if x == nvars[0]:
+                    nvars[0] += 1
+                e = self.expr(defined, 3)
+                out.append(("asg", x, e))
+                self.seqish[x] = e[0] in ("tup", "lst") or (e[0] == "var" and self.seqish.get(e[1], False)) or \
+                    (e[0] == "ite" and any(y[0] in ("tup", "lst") or (y[0] == "var" and self.seqish.get(y[1], False)) for y in e[2:]))
+                if x not in defined:
+                    defined.append(x)
+        return out, defined
+
+    def program(self):
+        rng = self.rng
+        n = rng.choice([1, 2, 2, 3])
+        params = [rng.choice(MINI_TYPES) for _ in range(n)]
+        self.seqish = {i: any(m[0] in ("seq", "generic") for m in members(t)) for i, t in enumerate(params)}
+        nvars = [n]
+        budget = [rng.randint(2, 9)]
+        body, d = self.block(list(range(n)), nvars, budget, 2)
+        if d is not None:
+            body.append(("ret", self.expr(d, 2)))
+        return {"params": params, "body": body}
+
+
+def mini_small_programs():
+    """A small exhaustive family: one parameter x of each type, every (test, then-expr, else-expr) shape over it."""
+    out = []
+    atoms = [("var", 0), ("lit", ("int", 1)), ("lit", ("none",)), ("sub", ("var", 0), 0), ("sub", ("var", 0), -1), ("tup", [("var", 0), ("lit", ("int", 1))])]
+    tests = [("isnone", 0), ("notnone", 0), ("not", ("isnone", 0))]
+    for t in MINI_TYPES:
+        for tst in tests:
+            for a in atoms:
+                out.append({"params": [t], "body": [("asg", 1, ("ite", tst, a, ("var", 0))), ("ret", ("tup", [("var", 1), ("var", 0)]))]})
+            out.append({"params": [t], "body": [("if", tst, [("asg", 1, ("var", 0))], [("asg", 1, ("lit", ("int", 5)))]),
+                                              ("asg", 2, ("lst", [("var", 1), ("var", 0)])), ("ret", ("sub", ("var", 2), 0))]})
+            out.append({"params": [t], "body": [("if", tst, [("ret", ("var", 0))], []), ("ret", ("var", 0))]})
+    return out
+
+
+def mini_test_src(t):
+    if t[0] == "isnone":
+        return "v%d is None" % t[1]
+    if t[0] == "notnone":
+        return "v%d is not None" % t[1]
+    return "not (%s)" % mini_test_src(t[1])
+
+
+def mini_expr_src(e, path, instr):
+    k = e[0]
+    if k == "lit":
+        s = obj_src(e[1])
+        if s.startswith("-"):
+            s = "(%s)" % s
+    elif k == "var":
+        s = "v%d" % e[1]
+    elif k in ("tup", "lst"):
+        parts = [mini_expr_src(x, path + [j], instr) for j, x in enumerate(e[1])]
+        s = ("(%s%s)" % (", ".join(parts), "," if len(parts) == 1 else "")) if k == "tup" else "[%s]" % ", ".join(parts)
+    elif k == "sub":
+        s = "%s[%d]" % (mini_expr_src(e[1], path + [0], instr), e[2])
+    else:
+        s = "(%s if %s else %s)" % (mini_expr_src(e[2], path + [1], instr), mini_test_src(e[1]), mini_expr_src(e[3], path + [2], instr))
+    if instr:
+        return "__rec(%r, %s)" % (".".join(map(str, path)), s)
+    return s
+
+
+def mini_block_src(stmts, path, ind, instr, out):
+    p = "    " * ind
+    if not stmts:
+        out.append(p + "pass")
+    for i, s in enumerate(stmts):
+        sp = path + [i]
+        if s[0] == "asg":
+            out.append("%sv%d = %s" % (p, s[1], mini_expr_src(s[2], sp + [0], instr)))
+        elif s[0] == "ret":
+            out.append("%sreturn %s" % (p, mini_expr_src(s[1], sp + [0], instr)))
+        else:
+            out.append("%sif %s:" % (p, mini_test_src(s[1])))
+            mini_block_src(s[2], sp + [1], ind + 1, instr, out)
+            if s[3]:
+                out.append(p + "else:")
+                mini_block_src(s[3], sp + [2], ind + 1, instr, out)
+
+
+def mini_src(prog, name, instr=False):
+    head = "def %s(%s) -> object:" % (name, ", ".join("v%d: %s" % (i, ty_src(t)) for i, t in enumerate(prog["params"])))
+    out = [head]
+    mini_block_src(prog["body"], [], 1, instr, out)
+    return "\n".join(out)
+
+
+def mini_sexp(prog):
+    def tst(t):
+        return "(%s %d)" % (t[0], t[1]) if t[0] != "not" else "(not %s)" % tst(t[1])
+
+    def ex(e):
+        k = e[0]
+        if k == "lit":
+            return "(lit %s)" % V.obj_sexp(e[1])
+        if k == "var":
+            return "(var %d)" % e[1]
+        if k in ("tup", "lst"):
+            return "(" + " ".join([k] + [ex(x) for x in e[1]]) + ")"
+        if k == "sub":
+            return "(sub %s %d)" % (ex(e[1]), e[2])
+        return "(ite %s %s %s)" % (tst(e[1]), ex(e[2]), ex(e[3]))
+
+    def st(s):
+        if s[0] == "asg":
+            return "(asg %d %s)" % (s[1], ex(s[2]))
+        if s[0] == "ret":
+            return "(ret %s)" % ex(s[1])
+        return "(if %s (%s) (%s))" % (tst(s[1]), " ".join(st(x) for x in s[2]), " ".join(st(x) for x in s[3]))
+
+    return "(prog (%s) %s)" % (" ".join(V.ty_sexp(t) for t in prog["params"]), " ".join(st(s) for s in prog["body"]))
+
+
+def mini_paths(prog, fn_node):
+    """{path string: ast node} for every Expr node of the MiniPy program, by parallel traversal."""
+    out = {}
+
+    def ex(e, node, path):
+        out[".".join(map(str, path))] = node
+        k = e[0]
+        if k in ("tup", "lst"):
+            for j, (x, n) in enumerate(zip(e[1], node.elts)):
+                ex(x, n, path + [j])
+        elif k == "sub":
+            ex(e[1], node.value, path + [0])
+        elif k == "ite":
+            ex(e[2], node.body, path + [1])
+            ex(e[3], node.orelse, path + [2])
+
+    def blk(stmts, nodes, path):
+        for i, (s, n) in enumerate(zip(stmts, nodes)):
+            sp = path + [i]
+            if s[0] == "asg":
+                ex(s[2], n.value, sp + [0])
+            elif s[0] == "ret":
+                ex(s[1], n.value, sp + [0])
+            else:
+                blk(s[2], n.body, sp + [1])
+                blk(s[3], n.orelse, sp + [2])
+
+    blk(prog["body"], fn_node.body, [])
+    return out
+
+
+def parse_sexp(s):
+    toks = s.replace("(", " ( ").replace(")", " ) ").split()
+    pos = 0
+
+    def rd():
+        nonlocal pos
+        t = toks[pos]
+        pos += 1
+        if t == "(":
+            out = []
+            while toks[pos] != ")":
+                out.append(rd())
+            pos += 1
+            return out
+        return t
+
+    return rd()
+
+
+def sexp_to_obj(x):
+    if x == "none":
+        return ("none",)
+    k = x[0]
+    if k in ("int", "bool", "flt", "cplx"):
+        return (k, int(x[1]))
+    if k in ("str", "bytes"):
+        return (k, x[1] if len(x) > 1 else "")
+    if k == "inst":
+        return (k, int(x[1]), int(x[2]))
+    if k == "cls":
+        return (k, int(x[1]))
+    if k == "dict":
+        return (k, [sexp_to_obj(y) for y in x[1]], [sexp_to_obj(y) for y in x[2]])
+    return (k, [sexp_to_obj(y) for y in x[1:]])
+
+
+def sexp_to_ty(x):
+    if x == "any":
+        return ("any",)
+    k = x[0]
+    if k == "known":
+        return (k, sexp_to_obj(x[1]))
+    if k in ("typed", "subclass", "tvar"):
+        return (k, int(x[1]))
+    if k == "newtype":
+        return (k, int(x[1]), int(x[2]))
+    if k in ("generic", "seq"):
+        return (k, int(x[1]), [sexp_to_ty(y) for y in x[2:]])
+    if k == "union":
+        return (k, [sexp_to_ty(y) for y in x[1:]])
+    return (k, sexp_to_ty(x[1]))
+
+
+def canon_ty(t):
+    """Unions as sorted member lists (the member order of a constrained lookup follows the iteration order of a frozenset
+    of AST nodes, stacked_scopes.py:1069 — order is C10's subject, not C01's); Annotated wrappers of constraints dropped."""
+    k = t[0]
+    if k == "union":
+        ms = []
+        for x in t[1]:
+            x = canon_ty(x)
+            ms += x[1] if x[0] == "union" else [x]
+        out = []
+        for m in sorted(ms, key=repr):
+            if m not in out:   # identical members: kept or merged depending on object identity of unhashable literals (C14)
+                out.append(m)
+        return out[0] if len(out) == 1 else ("union", out)
+    if k in ("generic", "seq"):
+        return (k, t[1], [canon_ty(x) for x in t[2]])
+    if k == "many":
+        return (k, canon_ty(t[1]))
+    if k == "annotated":
+        return canon_ty(t[1])
+    if k == "known":
+        return (k, V.canon_obj(t[1]))
+    return t
+
+
+def mini_stream(ctx, progs, with_model=True):
+    """Correspondence infer <-> pyanalyze, eval <-> CPython, mem <-> member, and the property itself on MiniPy programs."""
+    rng = ctx.rng
+    B = 60
+    for b0 in range(0, len(progs), B):
+        part = progs[b0:b0 + B]
+        names = ["m%d" % i for i in range(len(part))]
+        body = "\n".join(mini_src(p, n) for p, n in zip(part, names)) + "\n"
+        src = PRELUDE_HEAD + body
+        try:
+            fails, tree, vals = analyse(src)
+        except Exception as e:
+            ctx.disagree("mini", {"src": src[-600:]}, "EXC:%s" % type(e).__name__, "-")
+            continue
+        fnodes = {st.name: st for st in tree.body if isinstance(st, ast.FunctionDef)}
+        ns = {}
+        logs = []
+        ibody = "\n".join(mini_src(p, n, instr=True) for p, n in zip(part, names)) + "\n"
+        exec(compile(PRELUDE_HEAD + ibody, "<c01-mini>", "exec"), {"__rec": lambda k, v: (logs.append((k, snapshot(v))), v)[1], "__name__": "c01_mini"}, ns)
+        lines, meta = [], []
+        for p, n in zip(part, names):
+            argsets = gen_args(rng, p["params"], ctx.n(3, 4))
+            for objs in argsets:
+                if "'cls'" in repr(objs):
+                    continue  # class objects are subscriptable (dict[0] is a GenericAlias): outside the mini semantics
+                lines.append("run %s (args %s)" % (mini_sexp(p), " ".join(V.obj_sexp(V.canon_obj(o)) for o in objs)))
+                meta.append((p, n, objs))
+        outs = lean.run_driver("C01", lines) if (with_model and lines) else [None] * len(lines)
+        mem_lines, mem_meta = [], []
+        for (p, n, objs), out in zip(meta, outs):
+            case = {"src": mini_src(p, "f"), "args": [repr(V.obj_to_py(o)) for o in objs], "prog": p, "objs": objs}
+            ctx.count(1, mini=1)
+            paths = mini_paths(p, fnodes[n])
+            # implementation: inferred value per node (last check-phase visit)
+            impl = {}
+            for path, node in paths.items():
+                vs = vals.get(id(node)) or ([node.inferred_value] if hasattr(node, "inferred_value") else None)
+                if not vs:
+                    impl[path] = "unvisited"
+                    continue
+                try:
+                    impl[path] = V.ty_sexp(canon_ty(V.value_to_ty(vs[-1])))
+                except V.Unencodable:
+                    impl[path] = "unencodable"
+                except Exception as e:
+                    impl[path] = "EXC:%s" % type(e).__name__
+            # CPython: the run
+            del logs[:]
+            try:
+                ret = ns[n](*[V.obj_to_py(o) for o in objs])
+                outcome = "ret " + V.obj_sexp(V.canon_obj(V.py_to_obj(ret)))
+            except (IndexError, TypeError, KeyError, UnboundLocalError):
+                outcome = "raised"
+            cpy = [(k, V.obj_sexp(V.canon_obj(V.py_to_obj(v)))) for k, v in logs]
+            conforms = True
+            flags = "-"
+            model = None
+            if out is not None:
+                if out == "bad-op" or " | " not in out:
+                    ctx.disagree("mini", case, "driver", out)
+                    continue
+                parts = dict((seg[0], seg[2:]) for seg in out.split(" | "))
+                model = {}
+                for ent in parts["I"].split(";"):
+                    if ent:
+                        k, v = ent.split("=", 1)
+                        model[k] = V.ty_sexp(canon_ty(sexp_to_ty(parse_sexp(v))))
+                flags = parts["F"]
+                ctx.tag("mini_flags_" + flags)
+                ctx.corr("mini")
+                diff = {k: (impl.get(k), model.get(k)) for k in set(impl) | set(model)
+                        if impl.get(k) != model.get(k) and impl.get(k) != "unencodable"}
+                if diff and any("(known (list" in str(x) for x in list(impl.values()) + list(model.values())):
+                    # an unhashable literal: whether two occurrences merge depends on object identity (C14 `unhashable`),
+                    # which the model cannot see
+                    ctx.tag("mini_diff_unhashable_literal_identity")
+                elif diff and "frag" not in flags:
+                    conforms = False
+                    ctx.disagree("mini", case, {k: v[0] for k, v in diff.items()}, {k: v[1] for k, v in diff.items()})
+                elif diff:
+                    ctx.tag("mini_diff_outside_fragment")
+                ctx.corr("eval")
+                xs = [tuple(ent.split("=", 1)) for ent in parts["X"].split(";") if ent]
+                xs = [(k, V.obj_sexp(V.canon_obj(sexp_to_obj(parse_sexp(v))))) for k, v in xs]
+                mo = parts["O"]
+                if mo.startswith("ret "):
+                    mo = "ret " + V.obj_sexp(V.canon_obj(sexp_to_obj(parse_sexp(mo[4:]))))
+                if xs != cpy or mo != outcome or parts["A"] != "1":
+                    ctx.disagree("eval", case, {"log": cpy, "outcome": outcome}, {"log": xs, "outcome": mo, "argsOk": parts["A"]})
+            # the property on this program, with the reference membership
+            sz = sum(1 for _ in paths)
+            if sz >= 4 and any(s[0] == "if" for s in p["body"]) or "ite" in case["src"]:
+                ctx.nontriv(case["src"] + "|" + repr(case["args"]))
+            for k, v in logs:
+                node = paths[k]
+                vs = vals.get(id(node)) or ([node.inferred_value] if hasattr(node, "inferred_value") else None)
+                if not vs:
+                    continue
+                try:
+                    ts = [decode(x) for x in vs]
+                    ok = _or(xm(v, t) for t in ts)
+                except Unenc:
+                    continue
+                if len(mem_lines) < 400:
+                    try:
+                        gt = V.value_to_ty(vs[-1])
+                        mem_lines.append("mem %s %s" % (V.obj_sexp(V.canon_obj(V.py_to_obj(v))), V.ty_sexp(gt)))
+                        mem_meta.append((case, v, gt))
+                    except V.Unencodable:
+                        pass
+                if ok is False:
+                    cls = "literalEqMerge" if "literalEqMerge" in flags else ("C03:noneAssign" if "noneReject" in flags else None)
+                    ctx.candidate({"src": case["src"], "args": case["args"], "node": k, "prog": p, "objs": objs},
+                                  "node %s evaluated to %r, which is not in the inferred %s" % (k, v, " / ".join(xshow(t) for t in ts)),
+                                  cls=cls, conforms=conforms, stream="mini")
+                    break
+            if b0 == 0 and len(ctx.samples) < 3:
+                ctx.sample({"src": case["src"], "args": case["args"], "inferred": impl, "model": model, "flags": flags, "outcome": outcome})
+        if with_model and mem_lines:
+            res = lean.run_driver("C01", mem_lines)
+            for (case, v, gt), r in zip(mem_meta, res):
+                ctx.corr("spec")
+                ref = bool(G.member(v, gt))
+                if r != ("1" if ref else "0"):
+                    ctx.disagree("spec", {"object": repr(v), "type": V.ty_sexp(gt)}, "member=%s" % ref, "mem=%s" % r)
